@@ -48,6 +48,7 @@ PROPS["C11"] = {
             "TestC11Ops": T(600, 20000, shards={"quick": 8, "thorough": 16}),
             "TestC11ManyTerms": T(24, 1000, shards={"quick": 2, "thorough": 8}),
             "TestC11Constants": LIST(),
+            "TestC11NilEntropy": LIST(),
             # thorough only: Go native fuzzing (coverage-instrumented variant of the binary, driver kind FUZZ)
             # over the same pure decoder / wrong-length checks; hitting the time budget is a pass
             "FuzzC11Decode": FUZZ(90, configs=["default"]),
